@@ -22,4 +22,6 @@ MUTANTS = [
          old="            canonical_tag_name = tag_map[key]\n            module_name =", new="            canonical_tag_name = tag_map[key]\n            if key.startswith(\"internal\"):\n                continue\n            module_name ="),
     dict(name="emitter-filters-deprecated-ops", file=E_, expect="R7.5",
          old="            methods = [self.visitor.visit(op, self.context) for op in ops_for_tag]", new="            methods = [self.visitor.visit(op, self.context) for op in ops_for_tag if op.summary != \"deprecated\"]"),
+    dict(name="naming-strategy-compared-by-identity", file="core/loader/operations/parser.py", expect="R7.6",
+         old="naming_strategy == NamingStrategy.PATH", new="naming_strategy is NamingStrategy.PATH"),
 ]
